@@ -248,11 +248,23 @@ func TestCheck(t *testing.T) {
 		"virtual time; DA block time 1 s; a DA outage rejects every Submit during one DA block with a generic error",
 		"'genuinely still waiting' is read in the weakest way: committed blocks whose header, or non-empty data, has not been acknowledged by the DA layer, counted once per block",
 		"'resumes as soon as accepted': checked after three accepting DA blocks in which nothing is left unacknowledged",
+		"part 2: lazy mode (block interval 1 s, idle interval 2 s), idle chain (only empty batches), real AggregationLoop and submission loops under the cooperative scheduler in canonical order; every outage pattern over 6/8 DA blocks, limits 1-2; after the DA accepted everything a block must appear within two idle intervals and a block interval",
 	}
 	run := func(c *explore.Ctx) outcome { return body(t, c, depth) }
 	if r.ReplayPath() != "" {
 		var ch []explore.Point
-		if _, err := r.LoadReplay(&ch); err != nil {
+		var lz struct {
+			Lazy    bool
+			Choices []explore.Point
+		}
+		if _, err := r.LoadReplay(&lz); err == nil && lz.Lazy {
+			explore.ReplayOne(lz.Choices, func(c *explore.Ctx) {
+				if o := lazyBody(t, c, vf.Pick(r, 6, 8)); o.fail != nil {
+					fmt.Println(o.fail.Msg, o.events)
+					r.Report(vf.Violation{Clause: o.fail.Clause, Tags: o.tags, Msg: o.fail.Msg, History: lz})
+				}
+			})
+		} else if _, err := r.LoadReplay(&ch); err != nil {
 			r.EngineError(err.Error())
 		} else {
 			explore.ReplayOne(ch, func(c *explore.Ctx) {
@@ -279,6 +291,32 @@ func TestCheck(t *testing.T) {
 	})
 	for _, m := range st.Nondet {
 		r.EngineError("nondeterminism: " + m)
+	}
+	// part 2: lazy mode, idle chain, real AggregationLoop
+	lazyBlocks := vf.Pick(r, 6, 8)
+	st2 := explore.Explore(explore.Config{Deadline: vf.Pick(r, 60*time.Second, 10*time.Minute)}, func(c *explore.Ctx) {
+		o := lazyBody(t, c, lazyBlocks)
+		if o.fail != nil {
+			if o.fail.Clause == "engine" {
+				r.EngineError(o.fail.Msg)
+				return
+			}
+			r.Report(vf.Violation{Clause: o.fail.Clause, Tags: o.tags, Msg: fmt.Sprintf("%s\n events: %v", o.fail.Msg, o.events), Cost: len(o.events), History: map[string]any{"Lazy": true, "Choices": c.Choices()}})
+			r.Outcome("lazy:fail:" + o.fail.Clause)
+			return
+		}
+		r.Outcome(o.sig)
+		if len(o.events) >= 2 {
+			r.Sample(map[string]any{"part": "lazy idle chain", "result": o.sig})
+		}
+	})
+	for _, m := range st2.Nondet {
+		r.EngineError("nondeterminism (lazy part): " + m)
+	}
+	st.Executions += st2.Executions
+	st.Points += st2.Points
+	if st2.Capped != "" && st.Capped == "" {
+		st.Capped = "lazy part: " + st2.Capped
 	}
 	var caps []string
 	if st.Capped != "" {
